@@ -12,11 +12,11 @@ ROLES_PLAIN = [':ARG0', ':ARG1', ':ARG2', ':mod', ':domain', ':op1', ':op2', ':o
 SYMS = ['-', '+', 'foo', 'bar', '7', '-1.5', '0', '0.0', '1e3', 'x', 'imperative', 'A',
         'b2', '\u03b5\u03c0', 'a.b', 'c,d', '^', "it's", '\u00a0', 'x\u2028y', '00', 'x\u3000y',
         '\u0085', 'p#q', 'mi\ufeffkh', 'z\u200bw', 'cafe\u0301', '\u212bngstr', '\u201cso\u201d', '\u201c1\u201d',
-        '\u2018x\u2019', '\u00abq\u00bb']
+        '\u2018x\u2019', '\u00abq\u00bb', 'None', 'null']
 STRS = ['"x"', '"a b"', '"(p)"', '"a~b"', '"q/:r"', '"\\"q\\""', '"#h"', '""', '"\\\\"',
-        '"~1"', '"a\\nb"', '"\u00e9\u3000"', '"a ~e.1"', '"\u2028"', '"\tq\x0b"', '"a\ufeffb"', '"o\u031b\u0309 \u212a"']
+        '"~1"', '"a\\nb"', '"\u00e9\u3000"', '"a ~e.1"', '"\u2028"', '"\tq\x0b"', '"a\ufeffb"', '"o\u031b\u0309 \u212a"', '"x::y z"', '"k ::id 7"']
 CONCEPTS = ['alpha', 'beta', 'bark-01', 'i', 'a', 'b', 'have-mod-91', '"str"', '7', 'A',
-            '\u03b5', '"~x"', '-', 'x1', '_', 'e\u0301t\u00e9', '\u201cquoted\u201d']
+            '\u03b5', '"~x"', '-', 'x1', '_', 'e\u0301t\u00e9', '\u201cquoted\u201d', 'None']
 VARPOOL = ['a', 'b', 'c', 'd', 'e', 'f', 'g', 'h', 'i', 'x1', 'x2', '_', '_2', 'i2', 'a2',
            'v\u00e9', 'n0', 'zz', '10', '2.5', '-1', '_3', '_5']
 # ('10', '2.5', '-1' are legal variables - Variable <- Symbol - that look like numbers;
@@ -56,10 +56,21 @@ def usable_bases(rm, pool=ROLES_PLAIN, own=True):
     return out
 
 
+def _wide_symbol(rng, varset, exclude=None):
+    from pmon.gen import strings as _S
+    for _ in range(20):
+        sym = _S.rand_symbol(rng)
+        if sym.startswith('_') and sym[1:].isdigit() or sym == '_':
+            continue      # spelled like the variables that reification generates (O16)
+        if sym not in varset and not (exclude and exclude(sym)):
+            return sym
+    return 'foo'
+
+
 def rand_tree(rng, rm=None, n_nodes=None, p_reent=0.35, p_const=0.4, p_inv=0.3,
               p_noconcept=0.2, p_aln=0.2, max_branch=4, allow_empty_target=False,
               deep=False, extra_roles=(), no_constants_like=None, inv_attr=True,
-              concepts=None, syms=None, roles=None):
+              concepts=None, syms=None, roles=None, wide=True):
     """Well-formed tree (WF-T): every variable defined once, denoted triples
     pairwise distinct (as strings), canonical inversion, no inverted self loop.
     *no_constants_like*: predicate on a constant text to exclude (C10 proviso).
@@ -82,6 +93,11 @@ def rand_tree(rng, rm=None, n_nodes=None, p_reent=0.35, p_const=0.4, p_inv=0.3,
         children[parent[v]].append(v)
     denoted = set()
     bases = usable_bases(rm, list(roles), own=False) if roles else usable_bases(rm, ROLES_PLAIN + list(extra_roles))
+    if wide and not roles and rng.random() < 0.3:
+        # one or two role names over all of Unicode (usable like any undefined base)
+        from pmon.gen import strings as _S
+        extra_wide = usable_bases(rm, [_S.rand_role(rng) for _ in range(rng.choice([1, 2]))], own=False)
+        bases = bases + extra_wide * max(1, len(bases) // 12)
     syms_ = [c for c in (syms or (SYMS + STRS)) if c not in varset]
     if no_constants_like:
         syms_ = [c for c in syms_ if not no_constants_like(c)]
@@ -104,6 +120,8 @@ def rand_tree(rng, rm=None, n_nodes=None, p_reent=0.35, p_const=0.4, p_inv=0.3,
         branches = []
         if rng.random() >= p_noconcept:
             c = rng.choice(concepts_)
+            if wide and rng.random() < 0.05:
+                c = _wide_symbol(rng, varset, no_constants_like)
             if rng.random() < p_aln:
                 c += mk_aln(rng)
             branches.append(('/', c))
@@ -116,7 +134,8 @@ def rand_tree(rng, rm=None, n_nodes=None, p_reent=0.35, p_const=0.4, p_inv=0.3,
             if x < p_reent and len(variables) > 1:
                 items.append(('reent', rng.choice(variables)))
             elif x < p_reent + p_const:
-                items.append(('const', rng.choice(syms_)))
+                items.append(('const', _wide_symbol(rng, varset, no_constants_like)
+                              if wide and rng.random() < 0.08 else rng.choice(syms_)))
             elif allow_empty_target:
                 items.append(('none', None))
         rng.shuffle(items)
